@@ -140,3 +140,7 @@ func CaptureFile() *os.File {
 
 // Thorough reports whether the thorough tier was requested (larger bounds).
 func Thorough() bool { return os.Getenv("VERIF_TIER") == "thorough" }
+
+// MapOrder selects the map iteration order of the symbolic run (0 ascending keys, 1 descending); natively Go's
+// own randomised order applies.
+func MapOrder(k int) {}
